@@ -268,6 +268,19 @@ def run(ctx):
                         ("font.bold", "{ if (a.b) return true; }"), ("font.pointSize", "{ switch (a.i) { case 0: break; default: return a.i; } }"),
                         ("font.family", "{ if (a.b) { return a.s } }"), ("font.bold", "a.s"), ("font.pointSize", "{ if (a.b) { return a.i } else { return a.s } }")):
         docs.append((cxx.document([("tgt", member, src)]), [("binding", member, src, None)], [("root", "VObj")] + cxx.OBJECT_DECLS))
+    # names of the generated member functions: object id + signal (or property) names chosen so that DIFFERENT pairs concatenate to the same text
+    # (t + dPicked = tD + picked, t + iChanged = tI + changed ...); every function of the class needs a name of its own
+    for hs in ([("t", "onDPicked", "a.act(1)"), ("tD", "onPicked", "a.act(2)")], [("tD", "onPicked", "a.act(2)"), ("t", "onDPicked", "a.act(1)")],
+               [("t", "onGPicked", "a.act(1)"), ("tG", "onPicked", "a.act(2)"), ("t", "onDPicked", "a.act(3)"), ("tD", "onPicked", "a.act(4)")],
+               [("t", "onIChanged", "a.act(1)"), ("tI", "onToggled", "a.act(2)"), ("tIChanged", "onToggled", "a.act(3)")],
+               [("t", "onFired2", "a.act(1)"), ("tFired", "onFired", "a.act(2)"), ("tFired2", "onFired", "a.act(2)")]):
+        ex2 = []
+        for o, _, _ in hs:
+            if (o, "VObj") not in ex2:
+                ex2.append((o, "VObj"))
+        bs = [("t", "i", "a.i"), ("tI", "i", "a.i + 1")] if any(o == "tI" for o, _, _ in hs) else []
+        docs.append((cxx.document(bs, hs, ex2), [("handler", h, src, None) for _, h, src in hs], [("root", "VObj")] + cxx.OBJECT_DECLS + ex2))
+        ctx.dist("colliding-callback-names")
     res2 = qml.run_docs(vh, [d for d, _, _ in docs])
     work = os.path.join(C.BUILD, "c16")
     shutil.rmtree(work, ignore_errors=True)
